@@ -87,7 +87,8 @@ pub fn check_program(src: &str) -> Option<String> {
         init[10] = match seed { 0 => 0, 1 => 1, 2 => 3, 3 => -1, _ => init[10] };   // a0 drives the branches of the sample programs
         let mut m = Machine { regs: init, mem: HashMap::new(), salt: seed.wrapping_mul(97) };
         let nodes = cfg.nodes();
-        let label_at = |name: &str| nodes.iter().position(|x| matches!(x.node(), ParserNode::Label(l) if l.name.get().as_str() == name));
+        // labels are attached to the instruction that follows them
+        let label_at = |name: &str| nodes.iter().position(|x| x.labels().iter().any(|l| l.get().as_str() == name));
         let mut pc = 0usize;
         let mut steps = 0;
         while pc < nodes.len() && steps < 400 {
@@ -113,6 +114,7 @@ pub fn check_program(src: &str) -> Option<String> {
                 _ => {}
             }
             if !m.step(&pn) { break; }
+            if std::env::var("VALUES_DEBUG").is_ok() { eprintln!("seed {seed} pc {pc} `{}` regs_out {} mem_out {}", pn.raw_text_safe(), node.reg_values_out(), node.memory_values_out()); }
             if pn.is_instruction() {
                 for (reg, val) in node.reg_values_out().iter() {
                     if let Some(want) = den(val, &init) {
